@@ -173,12 +173,28 @@ class RoundTrip:
                     ctx.violation('game-parameter-lost', f'state.{nm}: played {x!r}, rebuilt {y!r}', sig=('C16', 'game-parameter-lost', nm))
         # replay
         yielded = []
+        kinds = []          # per applied action line: 'check', 'faced-fold' or None (what the loader may be left to infer)
         fin = None
+        seen_ops = 0
+        from ..refs.protocol import Tracker
+        tr = Tracker(st.player_count)
         try:
             for s, act in hh2.state_actions:
                 fin = s
+                new = s.operations[seen_ops:]
+                seen_ops = len(s.operations)
+                kind = None
+                for o in new:
+                    nm = type(o).__name__
+                    if act is not None and nm == 'CheckingOrCalling' and o.amount == 0 and act.split()[1:2] == ['cc']:
+                        kind = 'check'
+                    if act is not None and nm == 'Folding' and act.split()[1:2] == ['f'] and \
+                            tr.street[o.player_index] < max(tr.street):
+                        kind = 'faced-fold'
+                    tr.feed(o)
                 if act is not None:
                     yielded.append(act)
+                    kinds.append(kind)
         except KeyError as exc:
             if "UNKNOWN" in repr(exc) and st.status:
                 ctx.counters['partial_replay_raised_on_unknown_up_card_not_judged'] += 1
@@ -224,6 +240,34 @@ class RoundTrip:
                               sig=('C16', 'replay-differs', 'partial', code))
         if self.corrupt and not st.status:
             self.corruptions(hh2, st, ctx)
+            self.omissions(hh2, st, yielded, kinds, (pa, ph, pb), ctx)
+
+    # histories that leave checks and forced folds to the loader are completed to the same hand
+    def omissions(self, hh, st, acts, kinds, played, ctx):
+        H = HH()
+        n = len(acts)
+        variants = []
+        for what in ('check', 'faced-fold'):
+            # a step can be inferred only while later lines remain to be applied
+            idx = [i for i, k in enumerate(kinds) if k == what and i < n - 1]
+            if idx:
+                variants.append((f'all-{what}s-omitted', [a for i, a in enumerate(acts) if i not in idx]))
+                for i in idx:
+                    variants.append((f'one-{what}-omitted', acts[:i] + acts[i + 1:]))
+        for what, va in variants:
+            ctx.counters['histories_with_omitted_steps'] += 1
+            d = data_fields(hh)
+            d['actions'] = va
+            try:
+                fin = list(H(**d))[-1]
+            except Exception as exc:
+                ctx.violation('omitted-step-not-completed', f'{what}: actions {va} (full history {acts}): {type(exc).__name__}: {exc}',
+                              sig=('C16', 'omitted-step-not-completed', what.split('-', 1)[1], type(exc).__name__))
+                continue
+            if norm(fin.operations) != played or list(fin.stacks) != list(st.stacks) or fin.status:
+                ctx.violation('omitted-step-completed-differently',
+                              f'{what}: actions {va} replay to {norm(fin.operations)[0]} stacks {fin.stacks}; the full history {acts} '
+                              f'gives {played[0]} stacks {st.stacks}', sig=('C16', 'omitted-step-completed-differently', what.split('-', 1)[1]))
 
     # single-line corruptions of a terminal history: never silently truncated
     def corruptions(self, hh, st, ctx):
@@ -455,7 +499,7 @@ def finalize(merges, tier):
 
 def sanity(agg, counters, fam, tier):
     return [f'{k} == 0' for k in ('terminal_histories', 'partial_histories', 'replays_compared', 'action_lines_replayed',
-                                  'corruptions_tried', 'corruptions_reported_as_error', 'commentary_cases', 'user_field_cases')
+                                  'corruptions_tried', 'corruptions_reported_as_error', 'histories_with_omitted_steps', 'commentary_cases', 'user_field_cases')
             if not counters.get(k)]
 
 
